@@ -121,7 +121,8 @@ func libraryQuiet() bool {
 
 func runCase(c *dcase, r *res.Result) (string, string) {
 	lc := udp.ListenConfig{Backlog: c.Backlog}
-	if c.Filter == "even" {
+	if c.Filter == "even" || c.Filter == "skipfirst" {
+		// "skipfirst": every remote's datagram with seq 1 carries an odd first byte and is refused, later ones are admitted
 		lc.AcceptFilter = func(b []byte) bool { return len(b) > 0 && b[0]%2 == 0 }
 	}
 	if c.Batch > 0 {
@@ -388,10 +389,12 @@ func runCase(c *dcase, r *res.Result) (string, string) {
 							return // receiver makes no progress: reported by the completeness check below
 						}
 					}
-					atomic.AddInt64(&outstanding, int64(size))
+					if !(c.Filter == "skipfirst" && cl.sent == 0) { // the refused first datagram is never read: not part of the budget
+						atomic.AddInt64(&outstanding, int64(size))
+					}
 				}
 				cl.sent++
-				cl.conn.Write(mk(cl.idx, cl.sent, size, cl.odd))
+				cl.conn.Write(mk(cl.idx, cl.sent, size, cl.odd || c.Filter == "skipfirst" && cl.sent == 1))
 				r.Count("datagrams_sent", 1)
 			}
 		}()
@@ -435,6 +438,9 @@ func runCase(c *dcase, r *res.Result) (string, string) {
 			}
 			first, ok := firstReads[cl.addr]
 			want := uint32(1)
+			if c.Filter == "skipfirst" {
+				want = 2 // seq 1 is refused by the filter and creates nothing; seq 2 is the first admitted datagram
+			}
 			if ok && first != want {
 				k, d = "demux:first-datagram", fmt.Sprintf("the first datagram read from the connection of client %d is seq %d, expected %d", cl.idx, first, want)
 			}
@@ -464,12 +470,12 @@ func genCase(rng *rand.Rand) *dcase {
 	c.Clients = 2 + rng.Intn(23)
 	c.MultiIP = rng.Intn(3) == 0
 	c.Backlog = []int{1, 2, 128, 128}[rng.Intn(4)]
-	c.Filter = []string{"none", "none", "even"}[rng.Intn(3)]
+	c.Filter = []string{"none", "none", "even", "skipfirst"}[rng.Intn(4)]
 	c.Batch = []int{0, 0, 2, 8}[rng.Intn(4)]
 	c.Paced = rng.Intn(3) > 0
 	c.PerCli = 5 + rng.Intn(60)
 	c.Reconn = rng.Intn(3) == 0
-	c.Overflow = rng.Intn(3) == 0 && !c.Reconn
+	c.Overflow = rng.Intn(3) == 0 && !c.Reconn && c.Filter != "skipfirst"
 	if c.Backlog < c.Clients && !c.Overflow {
 		// small backlogs are only meaningful with the overflow phase; otherwise keep room for every remote
 		c.Backlog = 128
